@@ -332,6 +332,11 @@ theorem addCDATA_atomic {h h' : Heap} {p t : Id} {allowsText : Bool} {e : Err}
     obtain ⟨h2, hok⟩ := appendChild_fresh_ok h p t .cdata hk hne
     rw [hok] at hr; cases hr
 
+theorem fresh_run (h : Heap) (i : Id) :
+    (fresh i).run h = if Blank h i then (h, .ok ()) else (h, .error .Other) := by
+  unfold fresh
+  by_cases hb : Blank h i <;> simp [hb]
+
 /-! ### attributes -/
 
 /-- **C07 (setAttrNS)**: a value the converter rejects is not stored, the old value stays. -/
